@@ -1112,7 +1112,13 @@ class Signature:
             )
             return None
         if not star_kwargs_consumed:
-            extra_kwargs = set(actual_args.keywords) - keywords_consumed
+            # keep the order in which the keywords were passed (a set would make the
+            # message depend on the hash seed)
+            extra_kwargs = [
+                keyword
+                for keyword in actual_args.keywords
+                if keyword not in keywords_consumed
+            ]
             if extra_kwargs:
                 extra_kwargs_str = ", ".join(map(repr, extra_kwargs))
                 if len(extra_kwargs) == 1:
